@@ -19,7 +19,7 @@ type PropSpec struct {
 	ID   string
 	Pkgs []string
 	// Bounded stand-ins (never counted as proved).
-	Bounded []string
+	BoundedChecks []boundedSpec
 }
 
 var propSpecs = map[string]*PropSpec{
@@ -27,7 +27,8 @@ var propSpecs = map[string]*PropSpec{
 	"C02": {ID: "C02", Pkgs: []string{"./benchfmt"}},
 	"C03": {ID: "C03", Pkgs: []string{"./benchfmt", "./benchfmt/internal/bytesconv"}},
 	"C04": {ID: "C04", Pkgs: []string{"./benchfmt", "./benchunit", "./benchproc"}},
-	"C05": {ID: "C05", Pkgs: []string{"./benchfmt", "./benchproc"}},
+	"C05": {ID: "C05", Pkgs: []string{"./benchfmt", "./benchproc"}, BoundedChecks: []boundedSpec{
+		{"benchproc", "extract", "key extraction (/k first segment, /gomaxprocs, absent = empty) against a reference written from the format description, for every name up to a stated length over the alphabet {a b / - = 1}"}}},
 	"C06": {ID: "C06", Pkgs: []string{"./benchproc", "./benchproc/internal/parse"}},
 	"C07": {ID: "C07", Pkgs: []string{"./benchproc", "./benchproc/internal/parse"}},
 	"C08": {ID: "C08", Pkgs: []string{"./benchproc"}},
